@@ -67,7 +67,16 @@ DATETIMES = [datetime.datetime(2001, 12, 14, 21, 59, 43),
              datetime.datetime(2001, 12, 14, 21, 59, 43,
                                tzinfo=datetime.timezone.utc),
              datetime.datetime(2001, 12, 14, 21, 59, 43, 10, tzinfo=(
-                 datetime.timezone(datetime.timedelta(hours=-5))))]
+                 datetime.timezone(datetime.timedelta(hours=-5)))),
+             datetime.datetime(2001, 12, 14, 21, 59, 43, tzinfo=(
+                 datetime.timezone(datetime.timedelta(hours=5, minutes=30)))),
+             datetime.datetime(2001, 12, 14, 21, 59, 43, tzinfo=(
+                 datetime.timezone(datetime.timedelta(hours=-3, minutes=-30)))),
+             # local mean time (what zoneinfo gives for Europe/Amsterdam
+             # before 1937): an offset that is no whole number of minutes
+             datetime.datetime(1900, 1, 1, 12, 0, 0, tzinfo=(
+                 datetime.timezone(datetime.timedelta(minutes=19,
+                                                      seconds=32))))]
 
 
 def is_printable_bmp(s):
